@@ -150,12 +150,12 @@ Proof. reflexivity. Qed.
 Lemma add_known_known : forall st h k, is_known st k = true -> is_known (add_known st h) k = true.
 Proof.
   intros st h k H. unfold add_known. destruct (is_known st h) eqn:E; auto.
-  unfold is_known in *. cbn. rewrite mem_cons_or, H. apply orb_true_r.
+  unfold is_known, mem in *. cbn [known set_known existsb]. rewrite H. apply orb_true_r.
 Qed.
 Lemma add_known_self : forall st h, is_known (add_known st h) h = true.
 Proof.
   intros st h. unfold add_known. destruct (is_known st h) eqn:E; auto.
-  unfold is_known. cbn. rewrite mem_cons_or, N.eqb_refl. reflexivity.
+  unfold is_known, mem. cbn [known set_known existsb]. rewrite N.eqb_refl. reflexivity.
 Qed.
 
 Lemma wbws_known : forall st x st1 k, write_block_with_state st x = Ok st1 ->
@@ -163,9 +163,9 @@ Lemma wbws_known : forall st x st1 k, write_block_with_state st x = Ok st1 ->
 Proof.
   intros st x st1 k H. unfold write_block_with_state in H.
   destruct (negb (is_known st (b_parent (snd x))) && negb (hnum x =? 0)); [discriminate|].
-  inversion H; subst. unfold is_known at 2 4. cbn [known]. split.
-  - apply add_known_known.
-  - apply add_known_self.
+  inversion H; subst. split.
+  - intro Hk. change (is_known (add_known st (fst x)) k = true). now apply add_known_known.
+  - change (is_known (add_known st (fst x)) (fst x) = true). apply add_known_self.
 Qed.
 
 Lemma classify_known : forall st first x, is_CKnown (classify st first x) = true ->
